@@ -286,7 +286,13 @@ def replay_cases(binary, cases, nproc=None, timeout=900, env=None, args=()):
             rest = [c for c in shard if c["id"] not in seen]
             if len(shard) == 1:
                 kind = "timeout" if rc == -999 else ("sanitizer" if rc in (97, 98) or "Sanitizer" in se or "runtime error" in se else "crash")
-                return [{"id": shard[0]["id"], "ok": False, "crash": kind, "rc": rc, "stderr": se[-3000:]}]
+                # one more run of this single case with step markers to learn where it died
+                rc2, so2, se2 = run_harness(binary, args, stdin_text=text, timeout=timeout, env=dict(env or {}, VH_STEPS="1"))
+                marks = [l for l in se2.splitlines() if l.startswith("STEP ")]
+                step = int(marks[-1].split()[1]) if marks else -1
+                head = "\n".join([l for l in se.splitlines() if "ERROR" in l or l.lstrip().startswith("#")][:8])
+                return [{"id": shard[0]["id"], "ok": False, "crash": kind, "rc": rc, "step": step,
+                         "stderr": (head + "\n...\n" + se[-1500:])[:4000]}]
             # the first unseen case is the prime suspect; run the unseen ones individually
             if not rest:
                 return res
